@@ -140,7 +140,7 @@ func cmdSyncRun(args []string) int {
 		var evs []gate.Event
 		diverged := ""
 		inflight := false
-		var members []string // readers that share the fetch in flight
+		var members []string          // readers that share the fetch in flight
 		returned := map[string]bool{} // SyncReadRevision has returned (guarded by fol.mu)
 		noset := map[string]bool{}    // ... without having stored a revision
 		for _, s := range b.Steps {
